@@ -36,7 +36,25 @@ LONGPFX = [b"commonprefix" + s for s in (b"", b"a", b"b", b"ab", b"zz", b"a" * 5
 SINGLES = [bytes([c]) for c in b"mcxaz"]
 HIGH = [b"\x80", b"\xff", b"\x7f", b"\x01", b"\x80\x01", b"a\xff", b"a\x80b", b"\xff\xff", b"a", b"\x7f\x80"]
 WORDS = [b"cat", b"car", b"cart", b"dog", b"do", b"done", b"c", b"ca", b"zebra", b"apple", b"app"]
-FAMILIES = [NESTED, LONGPFX, SINGLES, HIGH, WORDS]
+# keys that differ only at byte positions >= 8 (a comparison of the first machine word cannot tell them
+# apart), only in the high bit of one byte (signed/unsigned char order, 7-bit truncation), and lengths
+# that are not multiples of 4
+LATE = [b"01234567" + t for t in (b"a", b"b", b"ab", b"", b"\x80", b"a\x80")] + [b"0123456789abcde" + t for t in (b"x", b"y", b"\xf8")]
+HIBIT = [b"a", b"\xe1", b"ab", b"a\xe2", b"\xe1b", b"\xe1\xe2", b"A", b"\xc1", b"\x7f", b"\xff", b"\x01", b"\x81"]
+ODDLEN = [b"k" * n for n in (1, 2, 3, 5, 7, 13)] + [b"k" * n + b"z" for n in (2, 4, 6, 12)]
+FAMILIES = [NESTED, LONGPFX, SINGLES, HIGH, WORDS, LATE, HIBIT, ODDLEN]
+
+# value alphabet: small values, duplicates, and pairs that differ by exactly 2^31, 2^32, 2^63, near 2^64-1
+BIGV = [2**31, 2**31 + 1, 2**32, 2**32 + 1, 2**32 + 7, 2**63, 2**63 + 1, 2**63 + 7, 2**64 - 1, 2**64 - 2]
+
+
+def rand_val(rng):
+    r = rng.random()
+    if r < 0.55:
+        return rng.choice([0, 1, 2, 3, 7, rng.randint(1, 99)])
+    if r < 0.8:
+        return rng.choice([1, 7]) + rng.choice([0, 2**31, 2**32, 2**63])
+    return rng.choice(BIGV)
 
 
 def rand_key(rng, fam=None):
@@ -110,7 +128,11 @@ class TstGen:
                     "it_remove_noout", "it_next", "it_remove", "it_remove", "it_next", "it_next", "size", "destroy"])
         out.append(["new_default", "add k=616263 v=1", "add k=61 v=2", "it_new", "it_next", "it_remove", "it_remove",
                     "it_next", "remove_all", "add k=62 v=3", "destroy"])
-        if focus in ("iter", "all"):
+        out.append(["new", "add k=3031323334353637 61 v=1".replace(" 61", "61"), "add k=303132333435363762 v=4294967297",
+                    "add k=3031323334353637 v=9223372036854775809", "get k=303132333435363761", "get k=303132333435363762",
+                    "add k=e1 v=18446744073709551615", "add k=61 v=2147483649", "get k=e1", "get k=61", "foreach_value",
+                    "remove_noout k=303132333435363761", "remove k=e1", "size", "destroy"])
+        if True:
             for cm in ("u", "r"):
                 out.append([f"new cmp={cm}", "add k=80 v=1", "add k=61 v=2", "add k=ff v=3", "add k=6180 v=4", "foreach_key",
                             "it_new", "it_next", "it_remove", "it_next", "it_next", "it_next", "it_next", "remove k=61",
@@ -139,7 +161,7 @@ class TstGen:
             if fam is not None and rng.random() < 0.3:
                 fam = fam + rng.choice(FAMILIES)
             cm = "s"
-            if focus in ("all", "iter") and rng.random() < 0.15:
+            if rng.random() < 0.3:                         # custom char_cmp in every focus
                 cm = rng.choice(["u", "r"])
             ops = ["new" if cm == "s" else f"new cmp={cm}"]
             if focus in ("all", None) and cm == "s" and rng.random() < 0.08:
@@ -162,7 +184,7 @@ class TstGen:
                     fail = ""
                     if focus == "all" and ops[0] != "new_default" and rng.random() < 0.12:
                         fail = f" fail={rng.randint(1, len(k) + 1)}"
-                    ops.append(f"add k={hx(k)} v={rng.choice([0, 1, 2, 3, rng.randint(1, 99)])}{fail}")
+                    ops.append(f"add k={hx(k)} v={rand_val(rng)}{fail}")
                     if k not in present and not fail:
                         present.append(k)
                 elif r < p_add + 0.2:
@@ -173,7 +195,7 @@ class TstGen:
                         k = self.near_miss(rng, present, fam)
                         if k in present:
                             present.remove(k)
-                    ops.append(f"{'remove' if rng.random() < 0.8 else 'remove_noout'} k={hx(k)}")
+                    ops.append(f"{'remove' if rng.random() < 0.65 else 'remove_noout'} k={hx(k)}")
                 elif r < p_add + 0.35:
                     k = rng.choice(present) if present and rng.random() > p_absent else self.near_miss(rng, present, fam)
                     ops.append(f"{rng.choice(['get', 'contains'])} k={hx(k)}")
